@@ -1,6 +1,6 @@
 (* Properties_C15.v — obligations of property C15 (callbacks, user data and getters are pure
    observers). *)
-Require Import ObsRun Lemmas_Core.
+Require Import ObsRun Lemmas_Core Lemmas_Reent.
 Local Open Scope Z_scope.
 
 (* Replacing all twelve registrations and the user data of ANY state commutes with every API
@@ -29,6 +29,41 @@ Theorem C15_observer : forall conv lut h s o, reach conv lut h s -> wf_op o ->
 Proof. exact C15_observer_holds. Qed.
 Print Assumptions C15_observer.
 
-(* Limit: calling the API from inside a callback (re-entrancy) is not modelled. *)
+(* RE-ENTRANCY.  A callback may itself call rdsparser_register_* / rdsparser_set_user_data on its
+   own parser.  step_reent (Reent.v) is the model of such a run: the notifications the call makes
+   when every callback is registered are replayed, in order, through the registration table and
+   user data as they evolve under the scripts of the invoked functions; a notification whose field
+   is unregistered at that moment is skipped, the others go to the function registered at that
+   moment with the user data set at that moment.  Three facts tie it to the base model: *)
+(* (a) the notifications of any call under any registrations are the relabelled / filtered
+       notifications of the same call with every callback registered *)
+Theorem C15_events_relabel : forall conv lut s o, op_group o <> None ->
+  snd (step conv lut s o) = relabel (cb s) (ud s) (snd (step conv lut (with_obs full_obs 0 s) o)).
+Proof. exact step_events_relabel. Qed.
+Print Assumptions C15_events_relabel.
+(* (b) callbacks that call nothing: the re-entrant step IS the step of the base model *)
+Theorem C15_reent_conservative : forall conv lut s o, step_reent conv lut (fun _ => []) s o = step conv lut s o.
+Proof. exact reent_conservative. Qed.
+Print Assumptions C15_reent_conservative.
+(* (c) whatever the callbacks register, remove or set from inside: decoding is not altered *)
+Theorem C15_reent_decoding_unaffected : forall conv lut sc s o,
+  snap_of (fst (step_reent conv lut sc s o)) = snap_of (fst (step conv lut s o)).
+Proof. exact reent_snapshot. Qed.
+Print Assumptions C15_reent_decoding_unaffected.
+(* (d) a removed callback is skipped: no notification is ever delivered to NULL *)
+Theorem C15_reent_never_null : forall sc full tab u e, In e (fst (replay sc tab u full)) -> ev_cb e <> 0.
+Proof. exact replay_nonnull. Qed.
+(* The library is run against step_reent by the "re-entrant registration" family of the check.
+   Limit: callbacks that call rdsparser_parse / clear / init from inside a callback (true
+   re-entrancy into the decoder) are not modelled. *)
+Example C15_reent_example :
+  let sc := rtab_of [(1, [RReg FPS 0; RSetUD 9]); (2, [RReg FPS 3])] in
+  let s := with_obs (fun f => if field_eqb f FPS then 2 else if field_eqb f FTA then 1 else if field_eqb f FMS then 2 else 0) 5 init_state in
+  map (fun e => (field_idx (ev_field e), ev_cb e, ev_ud e))
+      (snd (step_reent conv_u lut_g sc s (G 12801 1161 5264 16706 0 0 0 0)))
+  = [(3, 1, 5); (4, 2, 9); (8, 3, 9)].
+    (* TA -> function 1 (removes the PS callback, sets user data 9); MS -> function 2 (registers PS
+       function 3); PS -> function 3, with user data 9 *)
+Proof. vm_compute. reflexivity. Qed.
 Example C15_scenario : check_run_u (observer_u 15) scenario = true.
 Proof. vm_compute. reflexivity. Qed.
